@@ -3,6 +3,9 @@
 //
 // Case line (fields separated by one space):
 //   list <kind> <local> <max> <remotes> <opts> <filters> <world> <scripts>
+//   hlist ...same fields...   the request and every remote go through HTTP and the real controller router:
+//                             rpc.Conn -> router.New(federation Conn) and Conn.remotes[id] = rpc.Conn -> router.New(stub);
+//                             the call log is reduced to "F=uuid~in~t:<sorted batch>" (or "F=*") => answer
 //     kind     coll|ctr|cr|grp|spec|user     which generated_*List is called; "user@<id>" sets cluster.Login.LoginCluster
 //              to <id> (conn.go UserList then hands the request to chooseBackend(<id>) and caches the returned
 //              users of that cluster through local.UserBatchUpdate: logged as backend "<local>#upd", call
@@ -18,7 +21,8 @@
 //     scripts  "-" or id=act|act;...         per backend, per call index; past the end: "pa.f"
 //              act: e<status> (error; 0 = no HTTP status) | p<k>.<ord>[+inj|^inj] |
 //                   w (a backend that honours its context: waits until the request context is cancelled,
-//                      then returns ctx.Err(); only generated when another cluster fails by itself)
+//                      then returns ctx.Err(); only generated when another cluster fails by itself) |
+//                   c (the caller's context ends during this call: the stub cancels it, then returns ctx.Err())
 //              k: "a" (all) or a number; ord: f | r | o<n> (rotate); inj: uuid@ts,... appended (+) or prepended (^)
 //
 // Result line:
@@ -41,8 +45,14 @@ import (
 	"testing"
 	"time"
 
+	"net/url"
+	"regexp"
+
+	"git.arvados.org/arvados.git/lib/controller/router"
+	"git.arvados.org/arvados.git/lib/controller/rpc"
 	"git.arvados.org/arvados.git/sdk/go/arvados"
 	"git.arvados.org/arvados.git/sdk/go/arvadostest"
+	"git.arvados.org/arvados.git/sdk/go/auth"
 	"git.arvados.org/arvados.git/sdk/go/httpserver"
 )
 
@@ -62,6 +72,8 @@ type verifC20Stub struct {
 	// local backend only: UserBatchUpdate calls
 	updScript []string
 	updLog    []string
+	// ends the caller's context (script action "c")
+	cancelCaller func()
 }
 
 // far above any legitimate number of calls (at most one per requested uuid)
@@ -223,7 +235,10 @@ func (s *verifC20Stub) respond(ctx context.Context, opts arvados.ListOptions) (i
 		}
 		s.log = append(s.log, verifC20RenderReq(opts)+" => "+resp)
 	}()
-	if act == "w" {
+	if act == "c" {
+		s.cancelCaller()
+	}
+	if act == "w" || act == "c" {
 		select {
 		case <-ctx.Done():
 			return nil, ctx.Err()
@@ -400,6 +415,19 @@ func verifC20Operand(s string) (interface{}, error) {
 	return nil, errors.New("bad operand")
 }
 
+var verifC20UuidIn = regexp.MustCompile(`^F=uuid~in~[ti]:([^ ;#]*) `)
+
+// reduced call log of the hlist op: only the sorted batch of a single "uuid in" filter and the answer
+func verifC20Reduce(call string) string {
+	parts := strings.SplitN(call, " => ", 2)
+	if m := verifC20UuidIn.FindStringSubmatch(parts[0]); m != nil {
+		us := strings.Split(m[1], ",")
+		sort.Strings(us)
+		return "F=uuid~in~t:" + strings.Join(us, ",") + " => " + parts[1]
+	}
+	return "F=* => " + parts[1]
+}
+
 func verifC20Case(line string, overrun chan string) (out string) {
 	defer func() {
 		if r := recover(); r != nil {
@@ -407,9 +435,10 @@ func verifC20Case(line string, overrun chan string) (out string) {
 		}
 	}()
 	f := strings.Split(line, " ")
-	if len(f) != 9 || f[0] != "list" {
+	if len(f) != 9 || (f[0] != "list" && f[0] != "hlist") {
 		return "bad-op"
 	}
+	overHTTP := f[0] == "hlist"
 	kind, local := f[1], f[2]
 	login, hasLogin := "", false
 	if i := strings.Index(kind, "@"); i >= 0 {
@@ -481,8 +510,10 @@ func verifC20Case(line string, overrun chan string) (out string) {
 		}
 		scripts[kv[0]] = strings.Split(kv[1], "|")
 	}
+	ctx, cancelCaller := context.WithCancel(auth.NewContext(context.Background(), &auth.Credentials{Tokens: []string{arvadostest.ActiveTokenV2}}))
+	defer cancelCaller()
 	mkstub := func(id, holder string) *verifC20Stub {
-		st := &verifC20Stub{id: id, script: scripts[id], overrun: overrun}
+		st := &verifC20Stub{id: id, script: scripts[id], overrun: overrun, cancelCaller: cancelCaller}
 		for _, o := range world {
 			if len(o.uuid) >= 5 && o.uuid[:5] == holder {
 				st.holdings = append(st.holdings, o)
@@ -507,13 +538,31 @@ func verifC20Case(line string, overrun chan string) (out string) {
 		stubs = append(stubs, st)
 		conn.remotes[id] = st
 	}
-	ctx := context.Background()
+	var api arvados.API = conn
+	if overHTTP {
+		serve := func(be arvados.API) (*url.URL, func()) {
+			srv := &httpserver.Server{Addr: "localhost:"}
+			srv.Handler = router.New(be, nil)
+			if err := srv.Start(); err != nil {
+				panic(err)
+			}
+			return &url.URL{Scheme: "http", Host: srv.Addr}, func() { srv.Close() }
+		}
+		for id, be := range conn.remotes {
+			u, closefn := serve(be)
+			defer closefn()
+			conn.remotes[id] = rpc.NewConn(id, u, true, saltedTokenProvider(conn.local, id))
+		}
+		u, closefn := serve(conn)
+		defer closefn()
+		api = rpc.NewConn("front", u, true, rpc.PassthroughTokenProvider)
+	}
 	var uuids []string
 	switch kind {
 	case "coll":
 		var r arvados.CollectionList
-		r, err = conn.CollectionList(ctx, opts)
-		if r.Items == nil && err == nil {
+		r, err = api.CollectionList(ctx, opts)
+		if r.Items == nil && err == nil && !overHTTP {
 			return "nil-items"
 		}
 		for _, it := range r.Items {
@@ -521,8 +570,8 @@ func verifC20Case(line string, overrun chan string) (out string) {
 		}
 	case "ctr":
 		var r arvados.ContainerList
-		r, err = conn.ContainerList(ctx, opts)
-		if r.Items == nil && err == nil {
+		r, err = api.ContainerList(ctx, opts)
+		if r.Items == nil && err == nil && !overHTTP {
 			return "nil-items"
 		}
 		for _, it := range r.Items {
@@ -530,8 +579,8 @@ func verifC20Case(line string, overrun chan string) (out string) {
 		}
 	case "cr":
 		var r arvados.ContainerRequestList
-		r, err = conn.ContainerRequestList(ctx, opts)
-		if r.Items == nil && err == nil {
+		r, err = api.ContainerRequestList(ctx, opts)
+		if r.Items == nil && err == nil && !overHTTP {
 			return "nil-items"
 		}
 		for _, it := range r.Items {
@@ -539,8 +588,8 @@ func verifC20Case(line string, overrun chan string) (out string) {
 		}
 	case "grp":
 		var r arvados.GroupList
-		r, err = conn.GroupList(ctx, opts)
-		if r.Items == nil && err == nil {
+		r, err = api.GroupList(ctx, opts)
+		if r.Items == nil && err == nil && !overHTTP {
 			return "nil-items"
 		}
 		for _, it := range r.Items {
@@ -548,8 +597,8 @@ func verifC20Case(line string, overrun chan string) (out string) {
 		}
 	case "spec":
 		var r arvados.SpecimenList
-		r, err = conn.SpecimenList(ctx, opts)
-		if r.Items == nil && err == nil {
+		r, err = api.SpecimenList(ctx, opts)
+		if r.Items == nil && err == nil && !overHTTP {
 			return "nil-items"
 		}
 		for _, it := range r.Items {
@@ -557,8 +606,8 @@ func verifC20Case(line string, overrun chan string) (out string) {
 		}
 	case "user":
 		var r arvados.UserList
-		r, err = conn.UserList(ctx, opts)
-		if r.Items == nil && err == nil && !hasLogin {
+		r, err = api.UserList(ctx, opts)
+		if r.Items == nil && err == nil && !hasLogin && !overHTTP {
 			// (the LoginCluster detour hands the backend's answer on as it is, nil or not)
 			return "nil-items"
 		}
@@ -581,6 +630,11 @@ func verifC20Case(line string, overrun chan string) (out string) {
 	sort.Slice(stubs, func(i, j int) bool { return stubs[i].id < stubs[j].id })
 	var logs []string
 	for _, st := range stubs {
+		if overHTTP {
+			for i, l := range st.log {
+				st.log[i] = verifC20Reduce(l)
+			}
+		}
 		if len(st.log) > 0 {
 			logs = append(logs, st.id+": "+strings.Join(st.log, " // "))
 		}
